@@ -1,4 +1,5 @@
 (* Props/C05.v — property C05: retries. *)
+From CV Require Proofs.ReviewP.
 From CV Require Proofs.SchedP13.
 From CV Require Import Model.Base Model.Events Model.Attempt Model.Sched Proofs.BaseP Proofs.AttemptP Proofs.SchedP Proofs.SchedP2
   Proofs.SchedP8.
@@ -95,3 +96,19 @@ Theorem C05_failure_with_retries_left_is_retried :
                :: mid ++ EvScen f r sc (Some (cu+1, l-1)) ScStarted :: post.
 Proof. exact SchedP13.failure_with_retries_left_is_retried. Qed.
 Print Assumptions C05_failure_with_retries_left_is_retried.
+
+
+(* ---------- the same with "the run was not tripped by fail-fast" stated on the CONFIGURATION (review finding M3):
+   without fail-fast the flow never breaks (`C04_without_fail_fast_the_flow_never_breaks`), hence *)
+Theorem C05_without_fail_fast_failure_with_retries_left_is_retried :
+  forall c ls1 k ls2 s tr s1 tr1 s2 f r sc cu l,
+    cf_fail_fast c = false ->
+    exec c (ls1 ++ LAttEnd k true :: ls2) = Some (s, tr) -> pc s = Done ->
+    exec c ls1 = Some (s1, tr1) ->
+    step c s1 (LAttEnd k true) = Some (s2, [EvScen f r sc (Some (cu, l)) ScFinished]) ->
+    0 < l ->
+    exists mid post,
+      tr = tr1 ++ EvScen f r sc (Some (cu, l)) ScFinished
+               :: mid ++ EvScen f r sc (Some (cu+1, l-1)) ScStarted :: post.
+Proof. exact ReviewP.failure_with_retries_left_is_retried_no_ff. Qed.
+Print Assumptions C05_without_fail_fast_failure_with_retries_left_is_retried.
